@@ -11,7 +11,7 @@ def day_of(d):
     return (d - EPOCH).days
 
 
-def make_market(rng, syms, d0, ndays, late=None, gaps=0.0, missing=0.0, spikes=None):
+def make_market(rng, syms, d0, ndays, late=None, gaps=0.0, missing=0.0, spikes=None, tick=None):
     """sym -> [[iso, open, close, adj], ...]; `late`: sym -> first day offset with data;
     `spikes`: list that receives the ISO dates of one-bar x3 moves that revert on the next bar"""
     mk = {}
@@ -20,7 +20,7 @@ def make_market(rng, syms, d0, ndays, late=None, gaps=0.0, missing=0.0, spikes=N
         p = rng.uniform(5, 200)
         rows = []
         off = (late or {}).get(s, 0)
-        blank_before = rng.random() < 0.5          # pre-listing rows present but empty, instead of absent
+        blank_before = rng.random() < 0.65         # pre-listing rows present but empty, instead of absent
         for i in range(ndays):
             d = d0 + dtm.timedelta(days=i)
             if d.weekday() > 4:
@@ -35,6 +35,10 @@ def make_market(rng, syms, d0, ndays, late=None, gaps=0.0, missing=0.0, spikes=N
             if rng.random() < gaps:
                 continue
             row = [d.isoformat(), round(o, 4), round(c, 4), round(c * rng.choice([1.0, 1.0, 0.97]), 4)]
+            if tick:
+                # prices quoted on a coarse grid (quarters, halves): price x quantity then often ends in exactly .5
+                oo, cc = max(tick, round(o / tick) * tick), max(tick, round(c / tick) * tick)
+                row = [d.isoformat(), oo, cc, cc]
             if spike_at is not None and i == spike_at:
                 row = [row[0]] + [round(x * 3.0, 4) for x in row[1:]]
                 spikes.append(row[0])
@@ -154,12 +158,13 @@ def gen_case(rng, family='any'):
         elif rng.random() < 0.4:
             dates = [[a, (start - 86400 if rng.random() < 0.4 else (day_of(d0) + rng.randrange(0, max(1, nd))) * 86400 + rng.choice([CLOSE, CLOSE, OPEN + 60, 40000, CLOSE + 1, CLOSE + 60, 80100, 86399]))] for a in assets]
             uni = {'dynamic': dates}
-    if rng.random() < 0.2:
+    if rng.random() < 0.3:
         # one asset whose data start a few days into the range (its file may carry empty rows before the listing)
         late = dict(late or {})
         late[rng.choice(syms)] = 10 + rng.randrange(2, max(3, min(nd, 12)))
     spikes = [] if rng.random() < 0.15 else None
-    market = make_market(rng, syms, d0 - dtm.timedelta(days=10), nd + 25, late=late, gaps=gaps, missing=missing, spikes=spikes)
+    market = make_market(rng, syms, d0 - dtm.timedelta(days=10), nd + 25, late=late, gaps=gaps, missing=missing, spikes=spikes,
+                         tick=rng.choice([None, None, None, None, 0.25, 0.5]))
     burn = None
     k = rng.random()
     if k < 0.45:
